@@ -43,6 +43,9 @@ impl NotificationHandler<DidCloseTextDocument> for DidCloseTextDocumentHandler {
             .lock()
             .unwrap()
             .remove(&params.text_document.uri.to_file_path().unwrap());
+        // From now on the contents on disk are what counts
+        ctx.perform_codegen();
+        publish_diagnostics(ctx)?;
         Ok(())
     }
 }
